@@ -77,6 +77,11 @@ def h3(prog, ctx):
     for fld in pointer_fields(file_rec):
         if "%s->%s" % (p, fld) in released:
             ctx.ok("H3", "econf_freeFile releases %s" % fld, f.where, "free/econf_freeArray(%s->%s)" % (p, fld))
+        elif any(n9.k == "MemberExpr" and n9.j.get("member") == fld and n9.j.get("rec") == "econf_file" for n9 in f.walk()) and any(
+                c9.call_args() and c9.call_args()[0].strip().k in ("ArraySubscriptExpr", "DeclRefExpr") and render(c9.call_args()[0]) != p
+                for c9 in f.calls(("free", "econf_freeArray", "econf_free"))):
+            # the field is read into a local or a table and something of that kind is released (`lists[] = { kf->parse_dirs, .. }; for .. econf_freeArray(lists[i])`)
+            ctx.inconclusive("H3", "econf_freeFile releases %s" % fld, f.where, "`%s->%s` is read and a local / table element is released: not followed" % (p, fld))
         else:
             ctx.fail("H3", "econf_freeFile releases %s" % fld, f.where,
                      "the owning field `%s` of econf_file is never released: every object leaks it" % fld, key="field:econf_file.%s" % fld)
